@@ -8,6 +8,7 @@ require (
 )
 
 require (
+	go.sia.tech/mux v1.5.3 // indirect
 	golang.org/x/crypto v0.55.0 // indirect
 	lukechampine.com/frand v1.5.1 // indirect
 )
